@@ -354,7 +354,7 @@ pub fn run(a: &Args, m: &mut Mon) {
     m.floors(FLOORS);
     let mut r = Rng::lane(a.seed, "C14", a.shard, 0);
     canaries(m, &mut r);
-    let n = a.n(16_000, 800_000);
+    let n = a.n(48_000, 2_400_000);
     for _ in 0..n {
         macro_rules! per_poly {
             ($t:ident) => {
